@@ -22,13 +22,16 @@ def _rep(s):
 
 
 def schema_family(rng, kind=None):
-    kind = kind or rng.choice(["intkey", "composite", "strkey", "random", "intkey", "composite", "widerange", "pklast", "pkgap", "i32key", "casecols"])
+    kind = kind or rng.choice(["intkey", "composite", "strkey", "random", "intkey", "composite", "widerange", "pklast", "pkgap", "i32key", "casecols", "strrange"])
     if kind == "intkey":
         return [mk("K", "i16", pk=True), mk("V", ("str", 10), null=True), mk("N", "i32", null=True)]
     if kind == "composite":
         return [mk("A", "i16", pk=True), mk("B", ("str", 4), pk=True, null=True), mk("C", "i16", null=True)]
     if kind == "strkey":
         return [mk("S", ("str", 6), pk=True), mk("X", "i32", null=True, rng=(-5, 100))]
+    if kind == "strrange":
+        # a value range on a string column (it comes back from _Validation on reopen): integers stay invalid for it
+        return [mk("K", "i16", pk=True), mk("S", ("str", 8), null=True, rng=(1, 10)), mk("N", "i16", null=True, rng=(1, 10))]
     if kind == "casecols":
         # column names are case-sensitive: two columns may differ in letter case only
         return [mk("K", "i16", pk=True), mk("val", "i32", null=True), mk("Val", "i32", null=True), mk("VAL", ("str", 6), null=True)]
@@ -62,6 +65,8 @@ def schema_family(rng, kind=None):
 
 
 def gen_value(rng, col, p_invalid=0.1):
+    if p_invalid and col["range"] and isinstance(col["type"], tuple) and rng.random() < 0.15:
+        return rng.randint(col["range"][0], col["range"][1])        # inside the range, but not a string
     if rng.random() < p_invalid:
         return _rep(rng.choice([None, 0, "a", 32768, -2**31, "zzzzzzzzzzzzzzzzzzzzzzzz", "é" * 300, 40000]))
     if col["null"] and rng.random() < 0.25:
@@ -99,6 +104,10 @@ def gen_value(rng, col, p_invalid=0.1):
 
 def gen_cond(rng, cols, depth=2):
     names = [c["name"] for c in cols]
+    if depth == 2 and rng.random() < 0.2:
+        # a chain of restrictions; the first may be a bare column (true for any non-null, non-zero, non-empty value)
+        first = ("col", rng.choice(names)) if rng.random() < 0.5 else gen_cond(rng, cols, 1)
+        return ("and", first, gen_cond(rng, cols, 1))
     if rng.random() < 0.5:
         c = rng.choice(cols)
         v = gen_value(rng, c, 0.0)
@@ -429,6 +438,29 @@ def walk(cmds, outs, decode=None, start_db=None, sort_catalog=False, accounting=
             last_was_err = (got == "err")
             last_was_reopen = False
             continue
+        if name == "select" and not diverged and sx[1][1][0] == "t":
+            # a filter / projection of one user table: exactly the rows of the specification that satisfy the condition
+            tn = "".join(map(chr, sx[1][1][1]))
+            if tn in db.tables:
+                cols = db.tables[tn]["cols"]
+                cn = [c["name"] for c in cols]
+                proj = ["".join(map(chr, n)) for n in sx[1][2]]
+                cond = sx_to_cond(sx[1][3])
+                if any(n not in cn for n in proj) or (cond is not None and not db.expr_cols_ok(cols, cond)):
+                    want = "err"
+                else:
+                    idx = [cn.index(n) for n in proj] if proj else list(range(len(cn)))
+                    want = sorted(([r[k] for k in idx] for r in db.tables[tn]["rows"] if db.matched(cols, r, cond)), key=lambda r: [X.vkey(v) for v in r])
+                if o == "err":
+                    got = "err"
+                else:
+                    try:
+                        got = sorted(([None if v == "" else v for v in r] for r in dec_rows(X.parse_sx(o)[1][1])), key=lambda r: [X.vkey(v) for v in r])
+                    except Exception:
+                        got = o[:80]
+                if got != want:
+                    report("select", "%s returned %r; the rows of the table that satisfy the condition are %r" % (cmd[:160], got if got == "err" else got[:5], want if want == "err" else want[:5]))
+            continue
         if name == "reopen":
             if o != "(ok ())":
                 report("reopen", "reopening the saved package failed (%s)" % o)
@@ -558,4 +590,47 @@ def scenario_histories(rng, raw=False):
         h.insert("T", rows=[["b", "again"]]); step(h, j)                                            # must be refused
         h.update("T", ups=[("K", "c")], cond=("bin", "eq", ("col", "K"), ("lit", "a"))); step(h, j)
         out.append(("dup-pool-key-%d" % j, h))
+        # conditions given as a chain of restrictions (the wire form (and a b) is handed over as .with(a).with(b)): rows
+        # that satisfy only the first, only the second, a first restriction that is true without being 1
+        h = History(rng, j)
+        h.add_table("T", [mk("K", "i16", pk=True), mk("F", "i16", null=True), mk("S", ("str", 6), null=True)])
+        h.insert("T", rows=[[1, 2, "x"], [2, 0, "y"], [3, 6, None], [4, None, ""], [5, 1, "z"], [6, 4, "x"]]); step(h, j)
+        lt = lambda v: ("bin", "lt", ("col", "K"), ("lit", v))
+        h.select("T", [], ("and", ("col", "F"), lt(4))); h.select("T", ["K"], ("and", ("col", "S"), lt(6)))
+        h.select("T", [], ("and", ("and", ("col", "F"), ("col", "S")), lt(6)))
+        h.update("T", ups=[("S", "both")], cond=("and", ("col", "F"), lt(4))); step(h, j)
+        h.update("T", ups=[("F", 9)], cond=("and", ("col", "S"), ("bin", "gt", ("col", "K"), ("lit", 4)))); step(h, j)
+        h.delete("T", cond=("and", ("bin", "ge", ("col", "K"), ("lit", 2)), ("bin", "eq", ("col", "F"), ("lit", 0)))); step(h, j)
+        h.delete("T", cond=("and", ("col", "F"), ("bin", "eq", ("col", "K"), ("lit", 3)))); step(h, j)
+        h.delete("T", cond=("and", ("and", ("col", "S"), ("col", "F")), lt(2))); step(h, j)
+        out.append(("chained-with-%d" % j, h))
+        # an UPDATE whose condition selects no row (or whose table is empty) is still validated as a whole
+        h = History(rng, j)
+        h.add_table("T", [mk("K", "i16", pk=True), mk("N", "i16", null=True, rng=(0, 10)), mk("S", ("str", 4), cat="Identifier"),
+                          mk("E", ("str", 0), null=True, enum=["a", "b"])])
+        h.add_table("E", [mk("K", "i16", pk=True), mk("N", "i32", null=True)])
+        none = K(99)
+        for ups in ([("N", 11)], [("N", 70000)], [("N", -32768)], [("S", None)], [("S", 3)], [("N", "a")], [("S", "toolong")],
+                    [("S", "not id")], [("E", "c")], [("K", None)], [("Nope", 1)], [("N", 5)]):
+            h.update("T", ups=ups, cond=none)
+        h.update("E", ups=[("N", -2**31)], cond=K(1)); h.update("E", ups=[("N", "s")], cond=None); h.update("E", ups=[("K", 40000)], cond=("lit", 0))
+        step(h, j)
+        h.insert("T", rows=[[1, 5, "ab", "a"], [2, None, "c", None]]); step(h, j)
+        for ups in ([("N", 11)], [("N", 70000)], [("S", None)], [("S", 3)], [("S", "toolong")], [("S", "not id")], [("E", "c")],
+                    [("K", None)], [("K", -32768)], [("N", 5), ("S", "q")]):
+            h.update("T", ups=ups, cond=none)
+            h.update("T", ups=ups, cond=("lit", 0))
+        step(h, j)
+        out.append(("nomatch-invalid-%d" % j, h))
+        # a STRING column that carries a value range: an integer inside that range is still not a string
+        h = History(rng, j)
+        h.add_table("T", [mk("K", "i16", pk=True), mk("S", ("str", 8), null=True, rng=(1, 10)), mk("V", ("str", 0), null=True)])
+        h.insert("T", rows=[[1, "one", "keep"], [2, "two", "shared"], [3, None, "shared"]]); step(h, j)
+        h.insert("T", rows=[[4, 5, "int in range"]]); step(h, j)
+        h.insert("T", rows=[[5, "five", "ok"], [6, 1, "int"]]); step(h, j)
+        h.update("T", ups=[("S", 5)], cond=None); step(h, j)
+        h.update("T", ups=[("V", "changed"), ("S", 10)], cond=K(2)); step(h, j)
+        h.update("T", ups=[("S", 11)], cond=K(1)); step(h, j)
+        h.update("T", ups=[("S", "str")], cond=K(1)); step(h, j)
+        out.append(("string-range-%d" % j, h))
     return out
